@@ -1,6 +1,13 @@
 #include <AIToolbox/POMDP/Algorithms/SARSOP.hpp>
 
 namespace AIToolbox::POMDP {
+#ifdef AITOOLBOX_VERIF
+    std::function<bool(const SARSOP::VerifSnapshot &)> & SARSOP::verifObserver() {
+        static std::function<bool(const VerifSnapshot &)> observer;
+        return observer;
+    }
+#endif
+
     SARSOP::SARSOP(double tolerance, double delta) :
             tolerance_(tolerance), initialDelta_(delta) {}
 
